@@ -127,7 +127,9 @@ impl<'a> ZipFile<'a> {
 //@use zipfile_comment
 //@use zipfile_is_dir
 //@use zipfile_is_file
+//@use zipfile_skip_rest
 }
+//@use read_zipfile_or_end_from_stream
 //@use read_zipfile_from_stream
 //@impl src/read.rs | impl<'a> Read for ZipFile<'a>
 impl<'a> Read for ZipFile<'a> {
